@@ -458,7 +458,9 @@ fn run_case(cx: &CaseCtx, rep: &mut Report) {
 			// the server knows only the transform flags
 			let so = Options { min_zoom: None, max_zoom: None, bbox: None, aligned: None, border: None, ..o.clone() };
 			let (scertain, _) = expected(&ts, &so);
-			let mut args = vec![format!("[t]{}", src.display())];
+			// the same container under three ids: the flags must apply to every source, not just to the first
+			let ids = ["a", "t", "z"];
+			let mut args: Vec<String> = ids.iter().map(|id| format!("[{id}]{}", src.display())).collect();
 			if so.flip {
 				args.push("--flip-y".into());
 			}
@@ -482,13 +484,14 @@ fn run_case(cx: &CaseCtx, rep: &mut Report) {
 				probes.insert((k.0, (m + 3).min(u32::MAX as u64) as u32, k.2));
 			}
 			let mut bad = 0;
-			for k in probes {
+			for (n, k) in probes.into_iter().enumerate() {
 				if bad > 6 {
 					break;
 				}
-				let r = http::get(srv.port, &format!("/tiles/t/{}/{}/{}", k.0, k.1, k.2), &[]);
+				let id = ids[n % ids.len()];
+				let r = http::get(srv.port, &format!("/tiles/{id}/{}/{}/{}", k.0, k.1, k.2), &[]);
 				rep.eval();
-				let w = |extra: serde_json::Value| json!({"flags": args[1..].to_vec(), "request": format!("/tiles/t/{}/{}/{}", k.0, k.1, k.2), "status": r.status, "detail": extra});
+				let w = |extra: serde_json::Value| json!({"flags": args[ids.len()..].to_vec(), "request": format!("/tiles/{id}/{}/{}/{}", k.0, k.1, k.2), "status": r.status, "detail": extra});
 				if !r.complete {
 					bad += 1;
 					rep.violation("server|incomplete-response", "the server dropped the connection for a tile request", w(json!({"problem": r.problem, "server_panics": srv.panics().into_iter().rev().take(1).collect::<Vec<_>>()})));
